@@ -46,3 +46,16 @@ package aggregations
 //@   requires forall k int :: 0 <= k && k < len(b.ranges) ==> b.ranges[k] != nil
 //@   check index
 //@   at call Consume: assert [fed-only-when-in-range] val >= rang.low && val < rang.high
+
+// terms aggregation: total counts every hit exactly once, however many values the hit has for
+// the field (Finish derives `other` from it); every value of the hit feeds exactly one bucket
+//@ func search.TextValuesSource.Values(recv, d) (vals)
+//@   interface
+//@   pure
+//@ func TermsCalculator.Consume
+//@   requires a != nil && a.bucketsMap != nil
+//@   modifies *
+//@   ensures [every-hit-counted-once] a.total == old(a.total) + 1
+//@   loop 1
+//@     invariant a.total == old(a.total) + 1
+//@     invariant [one-bucket-fed-per-value] fedCount == old(fedCount) + rangeindex + 1
